@@ -28,6 +28,11 @@ CLAIMED = {
             "symbolic severities and flags (z3 over all paths of the compiled async state machine); structural obligations on filter-before-scan, written list == scanned list, one task per file.",
             "Awaits complete (poll returns Ready); Vec::retain / slice iteration follow their std contracts; report writers' contents, scheduling and >2x2 sequences are outside.",
             "DESIGN.md §2 C36"),
+    "C19": ("MIR-to-SMT symbolic execution (z3/cvc5) of the three suppression-comment analyzers composed with the real DiagnosticAction::is_match over a symbolic line table; native replay through VirtualWorkspace",
+            "The real MIR of analyze_diagnostic_disable{,_line,_next_line}, DiagnosticAction::is_match and is_file_diagnostic_code_disabled is executed symbolically; line starts, comment/block/"
+            "diagnostic ranges and codes are z3 variables, and the statement's clauses (covers its scope, nothing outside it, only listed codes) are discharged for all of them.",
+            "Leaf contracts for LuaDocument::get_line/get_line_range/get_offset(.,0) and rowan TextRange ops (stated in evidence); 5-line table, single-line diagnostics; parser attachment of comments is outside.",
+            "DESIGN.md §2 C19"),
 }
 
 NA = {}
@@ -76,7 +81,7 @@ def main():
         "engines": [
             {"name": "K", "path": "/verif/lib/kanirun.py", "serves_properties": sorted(CLAIMED),
              "kind_free_text": "Kani 0.68 proof harnesses (/verif/kani/*) over the real crates, CBMC 6.11 + cadical, unwinding assertions on, native replay"},
-            {"name": "M", "path": "/verif/mirsmt", "serves_properties": ["C20", "C36"],
+            {"name": "M", "path": "/verif/mirsmt", "serves_properties": ["C19", "C20", "C36"],
              "kind_free_text": "symbolic execution of rustc's MIR of the real functions into SMT (z3, cross-checked with cvc5)"},
         ],
         "checks": checks,
